@@ -251,6 +251,14 @@ func verify(repoDir, verifDir, prop, tier, fnFilter, dump string, overlay map[st
 		if c == nil {
 			c = synthetic[n]
 			isScan = true
+		} else if synthetic[n] != nil && !hasProp(c.Props, prop) {
+			// literal scan of a function whose contract belongs to another property: keep what the body needs to be
+			// translated (preconditions, loop invariants), drop that property's postconditions and call assertions
+			// (they are obligations of its own check, not of this one)
+			sc := *synthetic[n]
+			sc.Requires, sc.Loops, sc.Params, sc.Results, sc.Labels = c.Requires, c.Loops, c.Params, c.Results, c.Labels
+			c = &sc
+			isScan = true
 		}
 		fn := w.FindFunc(n)
 		fr := &FuncReport{Canon: n, Name: shortCallee(n), File: c.File}
